@@ -17,7 +17,7 @@
 (***************************************************************************)
 EXTENDS Integers, Sequences, FiniteSets, TLC, SequencesExt, FiniteSetsExt, Functions, Json, IOUtils
 
-CONSTANTS Family,       \* "pair" | "eam" | "fs" | "adp" | "funcfl" | "eam_under" | "fs_under"
+CONSTANTS Family,       \* "pair" | "eam" | "fs" | "adp" | "funcfl" | "eam_under" | "fs_under" | "eam_foreign" | "fs_foreign"
           Targets,      \* set of target names explored by this configuration
           MaxSp,        \* species ranks are 1..MaxSp
           MaxPots,      \* max number of declared pair potentials (pair family)
@@ -133,6 +133,15 @@ FsUnderModels(Tg) ==
                  E \in (SUBSET (1..k)) \ {{}, 1..k}} : k \in 2..MaxSp}
 FsUnder(Tg) == {mm \in FsUnderModels(Tg) : mm.embedDecl \cup {d[1] : d \in mm.densDecl} \cup {d[2] : d \in mm.densDecl} = Range(mm.els)}
 
+\* Pair potentials that name a species without any EAM function ("foreign": rank MaxSp + 1).  Such a species is not an
+\* element of the table: the setfl / TABEAM pair blocks run over element pairs only, the declaration is not used there.
+Foreign == MaxSp + 1
+ForeignSets(k) == {{<<1, Foreign>>}, {<<Foreign, k>>}, {<<Foreign, Foreign>>}, {<<1, Foreign>>, <<Foreign, Foreign>>}}
+EamForeign(Tg) ==
+  UNION {{[mm EXCEPT !.pots = PotSeqOf(Range(mm.pots) \cup FP)] : mm \in EamModelsOver(Tg, 1..k, "eam", FALSE), FP \in ForeignSets(k)} : k \in 1..MaxSp}
+FsForeign(Tg) ==
+  UNION {{[mm EXCEPT !.pots = PotSeqOf(Range(mm.pots) \cup FP)] : mm \in {x \in FsModelsOver(Tg, 1..k) : x.densDecl \in {{}, (1..k) \X (1..k)}}, FP \in ForeignSets(k)} : k \in 1..MaxSp}
+
 FuncflModels(Tg) == {[fam |-> "funcfl", tgt |-> "funcfl", nr |-> n, nrho |-> nh, pots |-> <<<<1, 1>>>>, els |-> <<1>>,
                   embedDecl |-> {1}, densDecl |-> {<<1, 0>>}, dip |-> <<>>, quad |-> <<>>] : n \in NRs, nh \in NRhos}
 
@@ -143,6 +152,8 @@ Models == CASE Family = "pair" -> PairModels(Targets)
             [] Family = "funcfl" -> FuncflModels(Targets)
             [] Family = "eam_under" -> EamUnder(Targets)
             [] Family = "fs_under" -> FsUnder(Targets)
+            [] Family = "eam_foreign" -> EamForeign(Targets)
+            [] Family = "fs_foreign" -> FsForeign(Targets)
 
 -----------------------------------------------------------------------------
 (* What the user declared, as functions of the model (the SPECIFICATION side) *)
